@@ -9,7 +9,8 @@ This module
       len(tmp), the peak inside _decompress and the managed/live sums are compared with the extracted model;
       the same for Worker.decompress (Mem.worker_peak) and for SevenZipCompressor.compress (Mem.compress_loop);
  (a2) checks the proven bounds on the real codecs at small scale (last decoder honest => len(res) <= max_length,
-      _buf stays empty, managed <= 2*max_length + block_size; any chain => _buf <= one block's expansion;
+      _buf stays empty, managed <= 2*max_length + block_size; any chain => _buf <= max_length + its largest overshoot,
+      managed <= 4*max_length + 3*overshoot + block_size, _buf <= one block's expansion;
       reads <= block_size, at most one per call; written blocks <= block_size) and finds out, by running them,
       which decoders return more than max_length;
  (b)  measures the property itself: one sandboxed child process per operation writes a large, highly compressible
@@ -41,7 +42,8 @@ ASSUMPTIONS = [
     "first_stage_held_bounded bounds the retained input of the first decoder by the packed size under held_step",
     "CPython temporaries (slices, the bytearray copy of tmp) are a constant factor (<= 3x) over the byte strings counted "
     "by `managed`; the factor is measured, not proved",
-    "honest/tame contracts of the real decoders are observed at small scale (part a2), not proved",
+    "honest/nearly-honest/tame contracts of the real decoders are observed at small scale (part a2), not proved; "
+    "brotli's output_buffer_limit is honoured up to one internal output block (observed overshoot recorded in the evidence)",
     "bounds are per SevenZipDecompressor (one folder at a time); parallel extraction (mp/threads) is out of scope here",
     "write side: 0 <= block_size; compressor objects emit at most held + input + eb per call and hold at most Hc",
 ]
@@ -389,6 +391,10 @@ class ToyDec:
             avail = self.pend + data
             n = len(avail) if (max_length < 0 or k <= 0) else min(len(avail), max_length // k)
             self.pend, out = avail[n:], rep_each(k, avail[:n])
+        elif tag == 4:    # rounds up: may exceed max_length by k-1 bytes (brotli's output_buffer_limit shape)
+            avail = self.pend + data
+            n = len(avail) if (max_length < 0 or k <= 0) else min(len(avail), (max_length + k - 1) // k)
+            self.pend, out = avail[n:], rep_each(k, avail[:n])
         else:
             out = data
         self.peak = max(self.peak, len(data) + len(out))
@@ -474,7 +480,7 @@ def rand_toy_case(rng):
     n = rng.choice([1, 1, 2, 2, 3])
     states = []
     for _ in range(n):
-        tag = rng.choice([0, 1, 2, 2, 3, 3])
+        tag = rng.choice([0, 1, 2, 2, 3, 3, 4, 4])
         k = rng.choice([0, 1, 2, 3, 5, 9]) if tag != 1 else rng.choice([0, 1, 2, 4])
         states.append([tag, k, []])
     packed = [rng.randrange(256) for _ in range(rng.choice([0, 1, 5, 12, 20, 33]))]
@@ -518,6 +524,9 @@ def check_toy_decompress(ctx, rep, rng, tier):
         return
     n = 3000 if tier == "quick" else 40000
     fixed = [
+        # the example of Mem.live_bytes_bounded_slack_applies
+        {"states": [[0, 0, []], [4, 7, []]], "us": [100, 700], "isz": 9, "bsz": 4, "packed": list(range(1, 10)),
+         "calls": [[10, 9], [3, 9], [10, 9], [10, 9], [10, 9], [10, 9]]},
         # the refutation witness of Mem.live_bytes_bounded_any_chain_refuted
         {"states": [[2, 250, []]], "us": [100000], "isz": 8, "bsz": 4, "packed": list(range(1, 9)), "calls": [[8, 8]]},
         {"states": [[0, 0, []], [3, 5, []]], "us": [100, 500], "isz": 9, "bsz": 4, "packed": list(range(1, 10)),
@@ -770,6 +779,7 @@ def real_codec_run(chain, pattern, size, bs, ml, seed):
     out = bytearray()
     remaining, calls, max_buf, max_managed, max_tmp = len(data), 0, 0, 0, 0
     tmp_over, fed_while_holding = False, 0
+    slack, max_m = 0, 0
     seen = {"tmp": 0}
     orig = d._decompress
 
@@ -793,6 +803,12 @@ def real_codec_run(chain, pattern, size, bs, ml, seed):
         if (buf0 - pos0) + seen["tmp"] != len(res) + (len(d._buf) - d._pos):
             problems.append("call %d: flow equation broken: carried %d + tmp %d != res %d + carried' %d" % (
                 calls, buf0 - pos0, seen["tmp"], len(res), len(d._buf) - d._pos))
+        slack, max_m = max(slack, seen["tmp"] - m), max(max_m, m)
+        # Mem.live_bytes_bounded_slack with c = the largest overshoot of a call so far, M = the largest max_length so far
+        if len(d._buf) > max_m + slack:
+            problems.append("call %d: _buf holds %d bytes > max_length %d + overshoot %d" % (calls, len(d._buf), max_m, slack))
+        if buf0 + len(d._buf) + len(res) + seen["tmp"] + read > 4 * max_m + 3 * slack + bs:
+            problems.append("call %d: managed bytes exceed 4*max_length + 3*overshoot + block_size" % calls)
         if seen["tmp"] > m:
             tmp_over = True
         elif not tmp_over and len(d._buf) != 0:
@@ -827,6 +843,7 @@ def real_codec_run(chain, pattern, size, bs, ml, seed):
     if max_managed > 3 * max(max_tmp, 0) + ml + bs:
         problems.append("managed bytes %d > 3*max tmp + max_length + block_size" % max_managed)
     obs["tmp_over_ml"] = tmp_over
+    obs["max_overshoot"] = slack
     return obs, problems
 
 
@@ -869,6 +886,7 @@ def check_real_codecs(ctx, rep, rng, tier):
         patterns = ["zeros", "p3", "text", "random"]
         size = 3_000_000
     table = {}
+    over = {}
     args = []
     for chain in chains:
         cfgs = []
@@ -897,6 +915,7 @@ def check_real_codecs(ctx, rep, rng, tier):
                     match_keys={"kind": "real-codec-exception", "chain": chain})
                 continue
             obs, problems = item["obs"], item["problems"]
+            over[chain] = max(over.get(chain, 0), obs.get("max_overshoot", 0))
             for nme, st in obs["stage_obs"].items():
                 t = table.setdefault(nme, {"honours_max_length": True, "max_over_max_length": 0, "max_ratio": 0,
                                            "keeps_reference_to_input": False})
@@ -915,6 +934,7 @@ def check_real_codecs(ctx, rep, rng, tier):
                               % (chain, cfg["pattern"], cfg["bs"], cfg["ml"], "; ".join(problems[:3])), rpl,
                               concrete=False, match_keys={"kind": "real-codec-bounds", "chain": chain})
     rep.extra["decoder_contract_observed"] = table
+    rep.extra["chain_overshoot_of_max_length_bytes"] = over
     return table
 
 
